@@ -250,8 +250,9 @@ func (u *Unit) callExternalDefault(call *ast.CallExpr, key string, f *types.Func
 		}
 		res = append(res, v)
 	}
-	if !u.inSpec && n > 1 {
-		// (value, error) results of external calls take part in the "no error is dropped" check
+	if !u.inSpec && n >= 1 && (call == nil || !u.errDropSites[call]) {
+		// error results of external calls -- (value, error) as well as a lone error (os.WriteFile, jen.File.Render)
+		// -- take part in the "no error is dropped" check
 		u.recordErrs(st, res, sig, key)
 	}
 	return res
